@@ -187,7 +187,33 @@ Cancel ==
                      \* because one of them failed, asyncio's TaskGroup absorbs the request (stdlib corner)
             Step(AbortChildren([r0 EXCEPT !.pendC = TRUE, !.lostC = (ChildErrs(x) # {})]))
 
+(* --- cancellation in the wake-up window ---------------------------------------------------------------------------
+   The last thing P was waiting for happens (the last suspended __aenter__ / __aexit__ is released, the last spawned task
+   ends) and P is cancelled BEFORE it runs again: what it awaited is complete, yet the await raises the cancellation.
+   (When something else is still pending P is not about to wake: release and cancellation are then two ordinary steps.) *)
+Hit(r) == [r EXCEPT !.cancelled = TRUE, !.early = {u \in Ch : r.ch[u] \in {"done", "failed", "cancelled"}}]
+
+(* all __aenter__ have finished - successfully or not: the results are dropped, everything entered is exited with the
+   cancellation, the block is left by it *)
+ReleaseEnterLate(i, how) ==
+  /\ ~x.cancelled /\ x.ph = "entering" /\ Entering(x) = {i}
+  /\ Step(Hit([x EXCEPT !.den[i] = IF how = "ok" THEN "entered" ELSE "failed", !.cause = "C"]))
+
+(* all __aexit__ have finished: the cancellation is what leaves the block (whatever they raised), the scope's tasks are
+   cancelled, not awaited *)
+ReleaseExitLate(i, how) ==
+  /\ ~x.cancelled /\ x.ph \in {"exiting", "rollback"} /\ Exiting(x) = {i}
+  /\ Step(Hit([x EXCEPT !.dex[i] = IF how = "ok" THEN "exited" ELSE "failed", !.dC = TRUE]))
+
+(* the last spawned task has ended: nothing is left to cancel, the cancellation leaves the block (unless the group was
+   already aborting after a failure - the stdlib corner of Cancel) *)
+ChildEndLate(u) ==
+  /\ ~x.cancelled /\ x.ph = "waiting" /\ Running(x) = {u}
+  /\ Step(Hit([x EXCEPT !.ch[u] = "done", !.pendC = TRUE, !.lostC = (ChildErrs(x) # {})]))
+
 Next == \/ Enter \/ Cancel
+        \/ \E i \in D, how \in {"ok", "fail"} : ReleaseEnterLate(i, how) \/ ReleaseExitLate(i, how)
+        \/ \E u \in Ch : ChildEndLate(u)
         \/ \E o \in {"return", "E", "BaseE"} : Leave(o)
         \/ \E i \in D, how \in {"ok", "fail"} : ReleaseEnter(i, how) \/ ReleaseExit(i, how)
         \/ \E u \in Ch : Spawn(u) \/ ChildEnd(u) \/ ChildFail(u)
